@@ -390,8 +390,8 @@ example : (Stack.cropPixels ⟨0, 6, 2, ⟨0, 5, 0, 4⟩⟩ (some 1) (some 3) no
     where it is read as a negative index (`-3 + 6 = 3`): the kymograph shows columns 7–8 of the raw image
     instead of the part 4–8 of the tether row that lies inside the cropped image. -/
 theorem F9_witness :
-    (Stack.kymoStack ⟨0, 3, 1, ⟨4, 10, 0, 6⟩⟩ (-3) 2 4 2 0).toOption.map Stack.roi = some ⟨7, 9, 2, 3⟩ ∧
-    (Stack.kymoStack ⟨0, 3, 1, ⟨4, 10, 0, 6⟩⟩ 0 2 4 2 0).toOption.map Stack.roi = some ⟨4, 9, 2, 3⟩ := by decide
+    (Stack.kymoStackUnfixed ⟨0, 3, 1, ⟨4, 10, 0, 6⟩⟩ (-3) 2 4 2 0).toOption.map Stack.roi = some ⟨7, 9, 2, 3⟩ ∧
+    (Stack.kymoStack ⟨0, 3, 1, ⟨4, 10, 0, 6⟩⟩ (-3) 2 4 2 0).toOption.map Stack.roi = some ⟨4, 9, 2, 3⟩ := by decide
 
 /-! ## ROI re-cropping is NumPy slicing of the current image -/
 
